@@ -259,3 +259,64 @@ package compiler
 //@     invariant name: field.Name == old(object.Type.Struct.Fields[i].Name) && field.Comments == old(object.Type.Struct.Fields[i].Comments)
 //@     invariant none: (forall r: int :: 0 <= r && r <= $i ==> !fieldMatch(pass.Fields[r], object, old(object.Type.Struct.Fields[i]))) ==> field == old(object.Type.Struct.Fields[i]) && object.Type.Struct.Fields[i] == old(object.Type.Struct.Fields[i])
 //@     invariant some: (exists r: int :: 0 <= r && r <= $i && fieldMatch(pass.Fields[r], object, old(object.Type.Struct.Fields[i]))) ==> field.Required == false && field.Type == with(old(object.Type.Struct.Fields[i].Type), "Nullable", true) && field.Name == old(object.Type.Struct.Fields[i].Name) && field.Comments == old(object.Type.Struct.Fields[i].Comments) && object.Type.Struct.Fields[i] == field
+//
+// omit: exactly the objects matching one of the references are removed from each schema; the
+// remaining objects keep their values and their relative order; the schema itself is the same.
+//@ func (*Omit).processSchema$1
+//@   property C15
+//@   requires pass != nil
+//@   modifies nothing
+//@   ensures  result == !anyObjMatch(pass.Objects, object)
+//@   loop 0:
+//@     invariant none: forall r: int :: 0 <= r && r <= $i ==> !objMatch(pass.Objects[r], object)
+//
+//@ func (*Omit).processSchema
+//@   property C15
+//@   requires pass != nil && schema != nil && wf(schema.Objects)
+//@   modifies schema.Objects
+//@   ensures  same: result == schema
+//@   ensures  wf: wf(schema.Objects)
+//@   ensures  removed: forall k: string :: schema.Objects.records.has(k) == (old(schema.Objects.records.has(k)) && !anyObjMatch(pass.Objects, old(schema.Objects.records[k])))
+//@   ensures  values: forall k: string :: schema.Objects.records.has(k) ==> schema.Objects.records[k] == old(schema.Objects.records[k])
+//@   ensures  order: forall a, b: int :: 0 <= a && a < b && b < len(schema.Objects.order) ==> skolem("pos", "pre", schema.Objects.order[a]) < skolem("pos", "pre", schema.Objects.order[b])
+//@   inlined-loop 0:
+//@     invariant kept: forall k: string :: newMap.records.has(k) ==> !anyObjMatch(pass.Objects, orderedMap.records[k])
+//@     invariant complete: forall k: string :: orderedMap.records.has(k) && skolem("pos", "pre", k) <= $i && !anyObjMatch(pass.Objects, orderedMap.records[k]) ==> newMap.records.has(k)
+//
+// trim_enum_values: member names and types are kept, non-string values are kept, nothing else of the
+// type changes (string values are replaced by strings.TrimSpace of themselves: not specified further).
+//@ func TrimEnumValues.processEnum
+//@   property C15
+//@   requires def.Kind == ast.KindEnum
+//@   modifies def.Enum.Values[*]
+//@   ensures  same: result.0 == def && result.1 == nil
+//@   ensures  members: forall v: int :: 0 <= v && v < len(def.Enum.Values) ==> def.Enum.Values[v].Name == old(def.Enum.Values[v].Name) && def.Enum.Values[v].Type == old(def.Enum.Values[v].Type) && (!old(isstring(def.Enum.Values[v].Value)) ==> def.Enum.Values[v].Value == old(def.Enum.Values[v].Value))
+//@   loop 0:
+//@     invariant done: forall v: int :: 0 <= v && v <= $i ==> def.Enum.Values[v].Name == old(def.Enum.Values[v].Name) && def.Enum.Values[v].Type == old(def.Enum.Values[v].Type) && (!old(isstring(def.Enum.Values[v].Value)) ==> def.Enum.Values[v].Value == old(def.Enum.Values[v].Value))
+//@     invariant todo: forall v: int :: $i < v && v < len(def.Enum.Values) ==> def.Enum.Values[v] == old(def.Enum.Values[v])
+//
+// omit_fields: exactly the fields matching one of the references are removed from struct objects; the
+// remaining fields keep their values and their relative order (src maps a kept field to its old index).
+//@ func (*OmitFields).processObject$1
+//@   property C15
+//@   requires pass != nil
+//@   modifies nothing
+//@   ensures  result == !anyFieldMatch(pass.Fields, object, field)
+//@   loop 0:
+//@     invariant none: forall r: int :: 0 <= r && r <= $i ==> !fieldMatch(pass.Fields[r], object, field)
+//
+//@ spec fieldsKept(pass, o, olds, n, news) = existsfn src: int -> int ::
+//@        (forall j: int :: 0 <= j && j < len(news) ==> 0 <= src(j) && src(j) < n && news[j] == olds[src(j)] && !anyFieldMatch(pass.Fields, o, olds[src(j)]))
+//@     && (forall j1, j2: int :: 0 <= j1 && j1 < j2 && j2 < len(news) ==> src(j1) < src(j2))
+//@     && (forall i: int :: 0 <= i && i < n && !anyFieldMatch(pass.Fields, o, olds[i]) ==> (exists j: int @kj :: 0 <= j && j < len(news) && src(j) == i))
+//
+//@ func (*OmitFields).processObject
+//@   property C15
+//@   requires pass != nil
+//@   modifies object.Type.Struct.Fields
+//@   ensures  same: result.0 == object && result.1 == nil
+//@   ensures  kept: object.Type.Kind == ast.KindStruct && old(base(object.Type.Struct.Fields)) != 0 ==> fieldsKept(pass, object, old(object.Type.Struct.Fields), old(len(object.Type.Struct.Fields)), object.Type.Struct.Fields)
+//@   ensures  oldarray: object.Type.Kind == ast.KindStruct ==> (forall i: int :: 0 <= i && i < old(len(object.Type.Struct.Fields)) ==> old(object.Type.Struct.Fields)[i] == old(object.Type.Struct.Fields[i]))
+//@   inlined-loop 0:
+//@     invariant fresh: base(output) != 0 && fresh(output)
+//@     invariant kept: fieldsKept(pass, object, input, $i + 1, output) witness src(j) := ite($i >= 0 && j == len(output) - 1 && !anyFieldMatch(pass.Fields, object, input[$i]), $i, skolem("src", "last", j)) witness kj := ite(i == $i, len(output) - 1, skolem("kj", "last", i))
